@@ -36,10 +36,10 @@ extern "C" void harness(void) {
   s->thread_count_ = 1;   // what runSocket() does before it starts the session thread
   s->processMsg(fd);
   int replied;
+  vf_check(vf_st_nwrite <= 1, "C19: at most one reply per connection");
 #if VF_MODEL
   replied = vf_st_nwrite > 0;
   vf_check(vf_st_nclose == 1, "C19: every client connection is closed exactly once");
-  vf_check(vf_st_nwrite <= 1, "C19: at most one reply per connection");
 #else
   char rb[256]; int fl = ::fcntl(sv[1], F_GETFL); ::fcntl(sv[1], F_SETFL, fl | O_NONBLOCK); replied = ::read(sv[1], rb, sizeof rb) > 0; ::close(sv[1]);
 #endif
